@@ -88,7 +88,7 @@ static const shape_t *shape(int k)
 {
     return k < NSHAPE_QUICK ? &shapes_quick[k] : &shapes_more[k - NSHAPE_QUICK];
 }
-static int norders(int tier) { return tier ? 4 : 2; }
+static int norders(int tier) { return tier ? 4 : 3; }
 
 static bool is16(vnacal_type_t t)
 {
@@ -210,6 +210,7 @@ static int universe0(cs_scenario *sc, const shape_t *sh, int tier)
 	    add_std(sc, CSE_SINGLE, 1, 1, 0, &r[k], NULL);
 	add_std(sc, CSE_THROUGH, 2, 1, 2, NULL, through_v);
 	add_std(sc, CSE_THROUGH, 2, 1, 3, NULL, through_v);
+	add_std(sc, CSE_THROUGH, 2, 2, 3, NULL, through_v);
     } else {
 	int r[3] = { PS, PO, PM };
 	for (int port = 1; port <= sq; ++port)
@@ -408,7 +409,9 @@ static void run(int tier, long idx, vf_result *r)
 	    int t = seq[i]; seq[i] = seq[n - 1 - i]; seq[n - 1 - i] = t;
 	}
     } else if (order >= 2 && n > 0) {
-	int rot = (order == 2 ? (n + 2) / 3 : (2 * n + 2) / 3) % n;
+	/* order 2 brings the last third to the front (a through between
+	   later ports first, then the reflects), order 3 the last two */
+	int rot = (order == 2 ? (2 * n + 2) / 3 : (n + 2) / 3) % n;
 	int tmp[CS_MAXSTD];
 	for (int i = 0; i < n; ++i)
 	    tmp[i] = seq[(i + rot) % n];
